@@ -6,8 +6,12 @@ cd /verif/engine
 mkdir -p /verif/bin /verif/evidence /verif/replays
 go build -o /verif/bin/vcheck ./cmd/vcheck
 cd /verif
-for h in harness/*/; do
-  id=$(basename "$h")
+# build the harness of every registered check (and the litmus suite of the trusted base)
+ids=$(python3 -c "
+import json
+print(' '.join(c['property_id'].lower() for c in json.load(open('/verif/MANIFEST.json'))['checks']))")
+for id in $ids litmus; do
   /verif/bin/vcheck build "$id" >/dev/null || { echo "setup: building harness $id failed" >&2; exit 1; }
 done
+/verif/.work/litmus/h > /verif/.work/litmus.log 2>&1 || { echo "setup: litmus suite of the scheduler failed" >&2; tail -5 /verif/.work/litmus.log >&2; exit 1; }
 echo "setup ok"
